@@ -33,6 +33,8 @@ type vWorld struct {
 	mu       sync.Mutex
 	behav    map[string]*vBehav
 	alive    map[string]int
+	aliveKey map[string]int // by process name / replica number
+	startKey map[string]int
 	starts   map[string]int
 	exits    map[string]int
 	stops    map[string]int // Stop() calls received
@@ -71,7 +73,7 @@ func vAt(proc string) string {
 }
 
 func vInit() *vWorld {
-	vW = &vWorld{behav: map[string]*vBehav{}, alive: map[string]int{}, starts: map[string]int{}, exits: map[string]int{},
+	vW = &vWorld{behav: map[string]*vBehav{}, alive: map[string]int{}, aliveKey: map[string]int{}, startKey: map[string]int{}, starts: map[string]int{}, exits: map[string]int{},
 		stops: map[string]int{}, lastCode: map[string]int{}, byStop: map[string]bool{}, startEnv: map[string][]string{},
 		startDir: map[string]string{}, started: make(chan string, 64)}
 	VerifCommanderHook = func(p *Process) command.Commander { return vNewCmd(p) }
@@ -105,6 +107,7 @@ func vPick[T any](xs []T, k int, def T) T {
 }
 
 type vCmd struct {
+	key     string // process name / replica number: stable across renames
 	name    string
 	attempt int
 	exitCh  chan struct{}
@@ -122,7 +125,7 @@ func vNewCmd(p *Process) *vCmd {
 	vW.mu.Lock()
 	k := vW.starts[name]
 	vW.mu.Unlock()
-	return &vCmd{name: name, attempt: k}
+	return &vCmd{name: name, attempt: k, key: p.procConf.Name + "/" + strconv.Itoa(p.procConf.ReplicaNum)}
 }
 
 func (c *vCmd) id() string { return c.name + "#" + strconv.Itoa(c.attempt) }
@@ -137,6 +140,8 @@ func (c *vCmd) Start() error {
 	w.mu.Lock()
 	w.starts[c.name]++
 	w.alive[c.name]++
+	w.aliveKey[c.key]++
+	w.startKey[c.key]++
 	n := w.alive[c.name]
 	w.startEnv[c.name] = c.env
 	w.startDir[c.name] = c.dir
@@ -197,6 +202,7 @@ func (c *vCmd) life() {
 	}
 	w.mu.Lock()
 	w.alive[c.name]--
+	w.aliveKey[c.key]--
 	w.exits[c.name]++
 	w.lastCode[c.name] = c.code
 	w.byStop[c.name] = byStop
